@@ -326,8 +326,67 @@ func ruleReaderRecursion(r *Run) {
 			r.Trivial("reader-recursion", shortName(fn), fn.Pos(), true, "not on a call-graph cycle: stack depth independent of input nesting")
 			continue
 		}
-		r.Check("reader-recursion", shortName(fn), site, inRegion,
-			"recursive reader call must be guarded by a consumed start element so that depth is bounded by input nesting")
+		// token-guarded recursion nests as deep as the input does: the goroutine stack is finite, so a
+		// main part with extreme nesting kills the process (a fatal stack overflow cannot be recovered).
+		// The cycle must therefore also carry a depth bound: an integer parameter or field that is
+		// compared against a limit and incremented around the recursive call.
+		bounded := false
+		var scc []*ssa.Function
+		for _, g := range m.Funcs {
+			if g == fn || (p.staticReach(fn)[g] && p.staticReach(g)[fn]) {
+				scc = append(scc, g)
+			}
+		}
+		cmpd, incd := map[string]bool{}, map[string]bool{}
+		intKey := func(v ssa.Value) string {
+			switch x := v.(type) {
+			case *ssa.Parameter:
+				if b, ok := x.Type().Underlying().(*types.Basic); ok && b.Info()&types.IsInteger != 0 {
+					return "param:" + x.Name()
+				}
+			case *ssa.UnOp:
+				if x.Op == token.MUL {
+					if fv, _ := fieldOfAddr(x.X); fv != nil {
+						if b, ok := fv.Type().Underlying().(*types.Basic); ok && b.Info()&types.IsInteger != 0 {
+							return "field:" + fv.Name()
+						}
+					}
+				}
+			}
+			return ""
+		}
+		for _, g := range scc {
+			allInstrs(g, func(in ssa.Instruction) {
+				bo, ok := in.(*ssa.BinOp)
+				if !ok {
+					return
+				}
+				switch bo.Op {
+				case token.GTR, token.GEQ, token.LSS, token.LEQ:
+					for _, side := range []ssa.Value{bo.X, bo.Y} {
+						if k := intKey(side); k != "" {
+							cmpd[k] = true
+						}
+					}
+				case token.ADD:
+					if c, isC := constInt(bo.Y); isC && c > 0 {
+						if k := intKey(bo.X); k != "" {
+							incd[k] = true
+						}
+					}
+				}
+			})
+		}
+		for k := range cmpd {
+			if incd[k] {
+				bounded = true
+			}
+		}
+		why := "recursive reader call must be guarded by a consumed start element so that depth is bounded by input nesting"
+		if inRegion && !bounded {
+			why = "the reader recurses once per nesting level of the input (" + shortName(fn) + " is on a call-graph cycle) without any depth limit: a main part nested deeply enough overflows the goroutine stack, which is fatal and cannot be turned into an error — Open must fail cleanly instead (carry a depth counter and compare it with a limit)"
+		}
+		r.Check("reader-recursion", shortName(fn), site, inRegion && bounded, why)
 	}
 	r.Min("reader_functions", n, 30)
 }
@@ -498,26 +557,132 @@ func ruleRunContainer(r *Run) {
 		return
 	}
 	sort.Strings(runContainers)
-	for _, name := range runContainers {
-		descends := false
-		for _, c := range m.ElemCmps[pfn] {
-			if c.Const != name {
+	reachesRun := func(cal *ssa.Function) bool {
+		return cal != nil && m.IsReader[cal] && (cal == runFn || p.staticReach(cal)[runFn])
+	}
+	// every reader function that collects runs: it has a case "r" that hands the element to the run
+	// reader.  Run containers nest (a hyperlink inside a simple field, an insertion inside a
+	// hyperlink), so each of these functions must let every container through.
+	var collectors []*ssa.Function
+	for _, f := range m.Funcs {
+		isColl := false
+		for _, c := range m.ElemCmps[f] {
+			if c.Const != "r" {
 				continue
 			}
 			for b := range c.Region {
 				for _, in := range b.Instrs {
-					if call, ok := in.(*ssa.Call); ok {
-						cal := staticCallee(call)
-						if cal != nil && m.IsReader[cal] && (cal == runFn || p.staticReach(cal)[runFn]) {
-							descends = true
-						}
+					if call, ok := in.(*ssa.Call); ok && reachesRun(staticCallee(call)) && b == firstBlockOfRegion(c) {
+						isColl = true
 					}
 				}
 			}
 		}
-		r.Check("run-container", name, pfn.Pos(), descends,
-			fmt.Sprintf("<w:%s> may contain runs inside a paragraph; %s has no case that descends into it, so the element is skipped and the text of the runs inside is lost on open+save", name, shortName(pfn)))
+		if isColl || f == pfn {
+			collectors = append(collectors, f)
+		}
 	}
+	r.Min("run_collecting_readers", len(collectors), 1)
+	for _, f := range collectors {
+		for _, name := range runContainers {
+			ok, why := containerPassesThrough(p, m, f, name, reachesRun)
+			key := name
+			if f != pfn {
+				key = shortName(f) + ":" + name
+			}
+			r.Check("run-container", key, f.Pos(), ok,
+				fmt.Sprintf("<w:%s> may contain runs wherever runs are collected; in %s its start tag %s, so the text of the runs inside is lost on open+save", name, shortName(f), why))
+		}
+	}
+}
+
+func firstBlockOfRegion(c StrCmp) *ssa.BasicBlock {
+	bo := c.If.Cond.(*ssa.BinOp)
+	if bo.Op == token.NEQ {
+		return c.Block.Succs[1]
+	}
+	return c.Block.Succs[0]
+}
+
+// containerPassesThrough follows what reader function f does with a start element named `name`:
+// the chain of name comparisons is evaluated for that constant, and from the block it selects every
+// path must reach the next Decoder.Token() (the children are read by the same loop) or a reader that
+// leads to the run reader — before any other reader call (skipElement and friends consume the
+// whole element).
+func containerPassesThrough(p *Program, m *readerModel, f *ssa.Function, name string, reachesRun func(*ssa.Function) bool) (bool, string) {
+	cmpAt := map[*ssa.BasicBlock]StrCmp{}
+	for _, c := range m.ElemCmps[f] {
+		cmpAt[c.Block] = c
+	}
+	if len(cmpAt) == 0 {
+		return false, "is not dispatched on at all"
+	}
+	// dispatch entry: a comparison block not dominated by another comparison block's region
+	var entry *ssa.BasicBlock
+	for b := range cmpAt {
+		if entry == nil || b.Dominates(entry) {
+			entry = b
+		}
+	}
+	type state struct {
+		b *ssa.BasicBlock
+		i int
+	}
+	seen := map[*ssa.BasicBlock]bool{}
+	bad := ""
+	var walk func(b *ssa.BasicBlock)
+	walk = func(b *ssa.BasicBlock) {
+		if bad != "" || seen[b] {
+			return
+		}
+		seen[b] = true
+		for _, in := range b.Instrs {
+			call, ok := in.(*ssa.Call)
+			if !ok {
+				continue
+			}
+			if calleeName(call) == decoderToken {
+				return // children are read by the loop
+			}
+			cal := staticCallee(call)
+			if cal == nil || !p.inModule(cal) {
+				continue
+			}
+			if reachesRun(cal) {
+				return // descends
+			}
+			if m.IsReader[cal] {
+				bad = "is handed to " + shortName(cal) + " (" + p.pos(call.Pos()) + "), which consumes the element without collecting runs"
+				return
+			}
+		}
+		if c, ok := cmpAt[b]; ok {
+			bo := c.If.Cond.(*ssa.BinOp)
+			eq, ne := b.Succs[0], b.Succs[1]
+			if bo.Op == token.NEQ {
+				eq, ne = ne, eq
+			}
+			if c.Const == name {
+				walk(eq)
+			} else {
+				walk(ne)
+			}
+			return
+		}
+		if len(b.Instrs) > 0 {
+			if _, isRet := b.Instrs[len(b.Instrs)-1].(*ssa.Return); isRet {
+				return
+			}
+		}
+		for _, s := range b.Succs {
+			walk(s)
+		}
+	}
+	walk(entry)
+	if bad != "" {
+		return false, bad
+	}
+	return true, "passes through"
 }
 
 // neverNilError: module functions whose error result is never nil (error constructors).
